@@ -174,11 +174,36 @@ theorem linkOk_spec {net : Net} {L : Link} (h : linkOk net L = true) : ∃ th, L
 
 /-! ### the invariants -/
 
+/-- `l` reads no subscription and sends into no mailbox more often than `e0` does (suffixes of `e0`; the kill-only handlers
+installed by `setEpi` / `dropEpi`) -/
+def Within (l e0 : List Instr) : Prop := ∀ m i, cntRead m i l ≤ cntRead m i e0 ∧ cntOut m l ≤ cntOut m e0
+
+theorem Within.refl (l : List Instr) : Within l l := fun _ _ => ⟨Nat.le_refl _, Nat.le_refl _⟩
+
+theorem Within.tail {l e0 : List Instr} (h : Within l e0) : Within l.tail e0 := by
+  intro m i
+  cases l with
+  | nil => exact h m i
+  | cons x r =>
+    have := h m i
+    simp only [List.tail_cons]
+    rw [cntRead_cons, cntOut_cons] at this
+    constructor <;> omega
+
+theorem Within.of_zero {l e0 : List Instr} (h : ∀ m i, cntRead m i l = 0 ∧ cntOut m l = 0) : Within l e0 := by
+  intro m i; have := h m i; constructor <;> omega
+
+theorem kill_counts (ms : List Nat) : ∀ m i, cntRead m i (ms.map Instr.killIfExc) = 0 ∧ cntOut m (ms.map Instr.killIfExc) = 0 := by
+  intro m i
+  induction ms with
+  | nil => simp [cntRead, cntOut]
+  | cons x r ih => simp only [List.map_cons, cntRead_cons, cntOut_cons]; simp [ih.1, ih.2]
+
 structure Base (net : Net) (s : NState) : Prop where
   lenM : s.mbs.length = net.mbs.length
   lenT : s.thr.length = net.threads.length
   suf : ∀ (u : Nat) (th : Thread) (ts : TSt), net.threads[u]? = some th → s.thr[u]? = some ts →
-    (∃ pre, th.epi = pre ++ ts.epi) ∧ ∃ pre, (if ts.inEpi then th.epi else th.body) = pre ++ ts.prog
+    Within ts.epi th.epi ∧ (if ts.inEpi then Within ts.prog th.epi else ∃ pre, th.body = pre ++ ts.prog)
   mb : ∀ (m : Nat) (sp : MBSpec) (a : AMB), net.mbs[m]? = some sp → s.mbs[m]? = some a → MbInv sp a
 
 def LinkInv (net : Net) (s : NState) (L : Link) : Prop :=
@@ -226,7 +251,7 @@ theorem frame_mb (s : NState) (t m : Nat) (f : AMB → AMB) (a : AMB) (h : s.mbs
 
 /-- how a thread state may change in one step (what `Base.suf` needs) -/
 inductive TMove (ts : TSt) : TSt → Prop
-  | adv (e : List Instr) : e = ts.epi ∨ e = [] → TMove ts { ts.advance with epi := e }
+  | adv (e : List Instr) : (e = ts.epi ∨ ∀ m i, cntRead m i e = 0 ∧ cntOut m e = 0) → TMove ts { ts.advance with epi := e }
   | raise (own : Bool) (x : Exc) : TMove ts (ts.raise own x)
   | die (x : Option (Bool × Exc)) : TMove ts { ts with prog := [], exc := x }
 
@@ -247,30 +272,35 @@ theorem Base.frame {net : Net} {s s' : NState} {t : Nat} {ots : Option TSt} {omb
         · rename_i hlt
           cases hts
           obtain ⟨ts0, hts0⟩ : ∃ ts0, s.thr[t]? = some ts0 := ⟨s.thr[t], List.getElem?_eq_getElem hlt⟩
-          obtain ⟨⟨pe, hpe⟩, ⟨pp, hpp⟩⟩ := h.suf t th ts0 hth hts0
+          obtain ⟨hpe, hpp⟩ := h.suf t th ts0 hth hts0
           cases hthr ts rfl ts0 hts0 with
           | adv e he =>
             refine ⟨?_, ?_⟩
-            · show ∃ pre, th.epi = pre ++ e
-              rcases he with rfl | rfl
-              · exact ⟨pe, hpe⟩
-              · exact ⟨th.epi, by simp⟩
-            · show ∃ pre, (if ts0.inEpi then th.epi else th.body) = pre ++ ts0.prog.tail
-              exact suf_tail ⟨pp, hpp⟩
+            · show Within e th.epi
+              rcases he with rfl | he
+              · exact hpe
+              · exact Within.of_zero he
+            · show if ts0.inEpi then Within ts0.prog.tail th.epi else ∃ pre, th.body = pre ++ ts0.prog.tail
+              split
+              · rename_i hin; rw [if_pos hin] at hpp; exact hpp.tail
+              · rename_i hin; rw [if_neg hin] at hpp; exact suf_tail hpp
           | raise own x =>
             unfold TSt.raise
             split
             · rename_i hin
-              refine ⟨⟨pe, hpe⟩, ?_⟩
-              have := suf_tail ⟨pp, hpp⟩
+              refine ⟨hpe, ?_⟩
+              rw [if_pos hin] at hpp
+              have := hpp.tail
               simpa [hin] using this
-            · refine ⟨⟨pe, hpe⟩, ?_⟩
-              show ∃ pre, (if true then th.epi else th.body) = pre ++ ts0.epi
-              exact ⟨pe, by simpa using hpe⟩
+            · refine ⟨hpe, ?_⟩
+              show if true then Within ts0.epi th.epi else ∃ pre, th.body = pre ++ ts0.epi
+              simpa using hpe
           | die x =>
-            refine ⟨⟨pe, hpe⟩, ?_⟩
-            show ∃ pre, (if ts0.inEpi then th.epi else th.body) = pre ++ []
-            exact ⟨_, (List.append_nil _).symm⟩
+            refine ⟨hpe, ?_⟩
+            show if ts0.inEpi then Within [] th.epi else ∃ pre, th.body = pre ++ []
+            split
+            · exact Within.of_zero (fun m i => by simp [cntRead, cntOut])
+            · exact ⟨_, (List.append_nil _).symm⟩
         · cases hts
       · exact h.suf u th ts hth hts
   · intro m sp a' hsp ha'
@@ -286,6 +316,29 @@ theorem Base.frame {net : Net} {s s' : NState} {t : Nat} {ots : Option TSt} {omb
         · cases ha'; exact hmb m0 a0 a' rfl sp hsp
         · cases ha'
       · exact h.mb m sp a' hsp ha'
+
+theorem Base.bodySuf {net : Net} {s : NState} (hb : Base net s) {u : Nat} {th : Thread} {ts : TSt}
+    (hth : net.threads[u]? = some th) (hts : s.thr[u]? = some ts) (hin : ts.inEpi = false) : ∃ pre, th.body = pre ++ ts.prog := by
+  have := (hb.suf u th ts hth hts).2
+  rw [if_neg (by simp [hin])] at this; exact this
+
+/-- what a thread can still do is bounded by what its body and its epilogue contain -/
+theorem Base.cnt {net : Net} {s : NState} (hb : Base net s) {u : Nat} {th : Thread} {ts : TSt}
+    (hth : net.threads[u]? = some th) (hts : s.thr[u]? = some ts) (m i : Nat) :
+    (ts.inEpi = true → cntRead m i ts.prog ≤ cntRead m i th.epi ∧ cntOut m ts.prog ≤ cntOut m th.epi) ∧
+    cntRead m i ts.prog ≤ cntRead m i th.body + cntRead m i th.epi ∧ cntOut m ts.prog ≤ cntOut m th.body + cntOut m th.epi := by
+  have h2 := (hb.suf u th ts hth hts).2
+  cases hin : ts.inEpi with
+  | true =>
+    rw [if_pos hin] at h2
+    have := h2 m i
+    exact ⟨fun _ => this, by omega, by omega⟩
+  | false =>
+    rw [if_neg (by simp [hin])] at h2
+    obtain ⟨pp, hpp⟩ := h2
+    have h3 := cntRead_suffix (m := m) (i := i) hpp
+    have h4 := cntOut_suffix (m := m) hpp
+    exact ⟨fun h0 => by simp at h0, by omega, by omega⟩
 
 theorem Frame.mbLookup {s s' : NState} {t : Nat} {ots : Option TSt} {omb : Option (Nat × AMB × AMB)} (hf : Frame s s' t ots omb)
     {k : Nat} {x : AMB} (h : s'.mbs[k]? = some x) :
@@ -354,8 +407,6 @@ theorem LinkInv.frame {net : Net} {s s' : NState} {t : Nat} {ots : Option TSt} {
       rcases hds with h0 | ⟨x, y, hxy⟩
       · rw [h0]; rfl
       · exact absurd hxy (hno x y)
-  -- the suffix property in the new state
-  obtain ⟨_, ⟨pp, hpp⟩⟩ := hb'.suf L.t th ts' hok.thr hts'
   rcases hf.thrLookup hts' with ⟨hots, htt, ts, hts⟩ | ⟨hno, hts⟩
   · -- the owner of the link moved
     obtain ⟨hJ, h3, h3r⟩ := hl th ts a sb b hok.thr hts ha hsb hbo
@@ -363,7 +414,7 @@ theorem LinkInv.frame {net : Net} {s s' : NState} {t : Nat} {ots : Option TSt} {
     rcases hthr ts' hots rfl ts hts with ⟨hin, hd0, hs0⟩ | ⟨hin0, hin1, hr, ho⟩
     · refine ⟨fun h0 => by simp [hin] at h0, ?_, ?_⟩ <;> omega
     · have hJ' := hJ hin0
-      simp only [hin1, Bool.false_eq_true, if_false] at hpp
+      obtain ⟨pp, hpp⟩ := hb'.bodySuf hok.thr hts' hin1
       obtain ⟨hl1, hl2⟩ := hok.lag pp ts'.prog hpp
       refine ⟨fun _ => by omega, ?_, ?_⟩ <;> omega
   · obtain ⟨hJ, h3, h3r⟩ := hl th ts' a sb b hok.thr hts ha hsb hbo
@@ -389,25 +440,19 @@ theorem head_free {net : Net} {s : NState} {L : Link} {th : Thread} (hb : Base n
     (h : t ≠ L.t ∨ ts.inEpi = true) : i ≠ .read L.mi L.si ∧ i ≠ .send L.mo ∧ i ≠ .close L.mo := by
   have hlt : t < net.threads.length := by rw [← hb.lenT]; exact (List.getElem?_eq_some_iff.mp hts).1
   have htu : net.threads[t]? = some net.threads[t] := List.getElem?_eq_getElem hlt
-  obtain ⟨_, ⟨pp, hpp⟩⟩ := hb.suf t _ ts htu hts
+  obtain ⟨cE, cR, cO⟩ := hb.cnt htu hts L.mi L.si
+  have cO' := (hb.cnt htu hts L.mo 0).2.2
+  have cE' := (hb.cnt htu hts L.mo 0).1
   have key : cntRead L.mi L.si ts.prog = 0 ∧ cntOut L.mo ts.prog = 0 := by
     by_cases htt : t = L.t
     · subst htt
       have hin : ts.inEpi = true := by rcases h with h | h; exact absurd rfl h; exact h
       rw [hok.thr] at htu; cases htu
-      simp only [hin, if_true] at hpp
-      have h1 := cntRead_suffix (m := L.mi) (i := L.si) hpp
-      have h2 := cntOut_suffix (m := L.mo) hpp
       have := hok.epiR; have := hok.epiO
+      have := (cE hin).1; have := (cE' hin).2
       omega
     · obtain ⟨o1, o2, o3, o4⟩ := hok.other t _ htt htu
-      split at hpp
-      · have h1 := cntRead_suffix (m := L.mi) (i := L.si) hpp
-        have h2 := cntOut_suffix (m := L.mo) hpp
-        omega
-      · have h1 := cntRead_suffix (m := L.mi) (i := L.si) hpp
-        have h2 := cntOut_suffix (m := L.mo) hpp
-        omega
+      omega
   rw [hp, cntRead_cons, cntOut_cons] at key
   refine ⟨?_, ?_, ?_⟩
   · intro he; simp [he] at key
@@ -496,7 +541,8 @@ theorem Base.step {net : Net} {s s' : NState} {t : Nat} (hb : Base net s) (h : s
     refine hb.frame (s' := ({ s with outcome := some out } : NState).setThr t ts.advance) (ots := some ts.advance) (omb := none)
       ⟨F.thr, F.mbs, (by intro m a a' he; cases he), F.lenT, F.lenM⟩ ?_ (by intro m a a' he; cases he)
     intro x hx y hy; cases hx; rw [hts] at hy; cases hy; exact tmove_adv ts
-  | dropEpi => exact thrOnly _ (TMove.adv [] (Or.inr rfl))
+  | dropEpi => exact thrOnly _ (TMove.adv [] (Or.inr (fun m i => by simp [cntRead, cntOut])))
+  | setEpi ms => exact thrOnly _ (TMove.adv _ (Or.inr (kill_counts ms)))
 
 theorem adv_counts {ts : TSt} {i : Instr} {rest : List Instr} (hp : ts.prog = i :: rest) (L : Link) :
     cntRead L.mi L.si ts.prog.tail + (if i = .read L.mi L.si then 1 else 0) = cntRead L.mi L.si ts.prog ∧
@@ -579,10 +625,12 @@ theorem LinkInv.step {net : Net} {s s' : NState} {t : Nat} {L : Link} {th : Thre
     | true => exact Or.inl rfl
     | false =>
       exfalso
-      obtain ⟨_, ⟨pp, hpp⟩⟩ := hb.suf L.t th ts hok.thr hts
-      simp only [hin, Bool.false_eq_true, if_false] at hpp
+      obtain ⟨pp, hpp⟩ := hb.bodySuf hok.thr hts hin
       exact hok.noDie (.die e) (by rw [hpp, hp]; simp) e rfl
   | dropEpi =>
+    exact simple _ _ none (frame_thr s t _) hb' (by intro m a a' he; cases he)
+      (fun _ => Or.inr ⟨rfl, rfl, by simp, by simp, by simp⟩)
+  | setEpi ms =>
     exact simple _ _ none (frame_thr s t _) hb' (by intro m a a' he; cases he)
       (fun _ => Or.inr ⟨rfl, rfl, by simp, by simp, by simp⟩)
   | finish sv out _ =>
@@ -744,7 +792,7 @@ theorem Base.init (net : Net) : Base net (init net) := by
   · intro u th ts hth hts
     obtain ⟨th', hth', rfl⟩ := init_thr hts
     rw [hth] at hth'; cases hth'
-    exact ⟨⟨[], rfl⟩, ⟨[], rfl⟩⟩
+    exact ⟨Within.refl _, ⟨[], rfl⟩⟩
   · intro m sp a hsp ha
     obtain ⟨sp', hsp', rfl⟩ := init_mbs ha
     rw [hsp] at hsp'; cases hsp'
@@ -836,11 +884,8 @@ theorem sub_frozen {net : Net} {s s' : NState} {c mk sk u : Nat} (hb : Base net 
     rcases this with h0 | h0
     · exact absurd h0 hu
     · simp only [htu, Bool.and_eq_true, decide_eq_true_eq] at h0
-      obtain ⟨_, ⟨pp, hpp⟩⟩ := hb.suf u _ ts htu hts
       have hz : cntRead mk sk ts.prog = 0 := by
-        split at hpp
-        · have := cntRead_suffix (m := mk) (i := sk) hpp; omega
-        · have := cntRead_suffix (m := mk) (i := sk) hpp; omega
+        have := (hb.cnt htu hts mk sk).2.1; omega
       rw [hp, cntRead_cons] at hz
       intro he; simp [he] at hz
   -- whatever the step did to mailbox mk, subscriber sk kept `next` and `buffered`
@@ -890,6 +935,7 @@ theorem sub_frozen {net : Net} {s s' : NState} {c mk sk u : Nat} (hb : Base net 
   | fail => exact thrOnly _ rfl
   | die => exact thrOnly _ rfl
   | dropEpi => exact thrOnly _ rfl
+  | setEpi => exact thrOnly _ rfl
   | finish sv out _ => exact ⟨ak', sb', by simpa using hak', hsb', rfl, rfl⟩
   | kill _ m own r _ _ => exact same _ m none (Or.inr ⟨_, rfl⟩) (fun a => Or.inl (by simp))
   | sendOk m sp a _ _ _ _ _ => exact same _ m none (Or.inr ⟨_, rfl⟩) (fun a => Or.inl rfl)
@@ -1091,7 +1137,6 @@ theorem GateInv.step {net : Net} {s s' : NState} {u t m : Nat} {th : Thread} (hb
   -- the thread that moves, as a thread of the net
   have hlt : u < net.threads.length := by rw [← hb.lenT]; exact (List.getElem?_eq_some_iff.mp hts).1
   have htu : net.threads[u]? = some net.threads[u] := List.getElem?_eq_getElem hlt
-  obtain ⟨_, ⟨pp, hpp⟩⟩ := hb.suf u _ ts htu hts
   -- only `t` sends into `m`
   have notOut : (i = .send m ∨ i = .close m) → u = t := by
     intro hi
@@ -1099,9 +1144,8 @@ theorem GateInv.step {net : Net} {s s' : NState} {u t m : Nat} {th : Thread} (hb
     apply Classical.byContradiction
     intro hut
     obtain ⟨o1, o2⟩ := hok.other u _ hut htu
-    split at hpp
-    · have := cntOut_suffix (m := m) hpp; omega
-    · have := cntOut_suffix (m := m) hpp; omega
+    have := (hb.cnt htu hts m 0).2.2
+    omega
   -- thread t in the new state when another thread moved / when t itself moved to `ts'`
   have thrOther : u ≠ t → ∀ ts', s'.thr[t]? = some ts' → s'.thr.length = s.thr.length → (∀ v, v ≠ u → s'.thr[v]? = s.thr[v]?) →
       ∃ ts0, s.thr[t]? = some ts0 ∧ (ts'.inEpi = false → armed m ts'.prog = true → ts0.inEpi = false ∧ armed m ts0.prog = true) := by
@@ -1177,7 +1221,7 @@ theorem GateInv.step {net : Net} {s s' : NState} {u t m : Nat} {th : Thread} (hb
         · rw [h0] at hin; cases hin
         · rw [h1] at hin
           rw [hok.thr] at htu; cases htu
-          simp only [hin, Bool.false_eq_true, if_false] at hpp
+          obtain ⟨pp, hpp⟩ := hb.bodySuf hok.thr hts hin
           rw [hp] at hpp
           have := hok.out pp _ rest hpp (by first | exact Or.inl rfl | exact Or.inr rfl)
           rw [h2, hp] at harm
@@ -1216,6 +1260,7 @@ theorem GateInv.step {net : Net} {s s' : NState} {u t m : Nat} {th : Thread} (hb
       refine gen _ none (frame_thr s u _) ?_ noMb
       intro ts1 h1 _; cases h1; exact Or.inr (Or.inl rfl)
     | dropEpi => exact gen _ none (frame_thr s u _) (advOK []) noMb
+    | setEpi ms => exact gen _ none (frame_thr s u _) (advOK _) noMb
     | finish sv out _ =>
       have F := frame_thr { s with outcome := some out } u ts.advance
       exact gen (some ts.advance) none ⟨F.thr, F.mbs, (by intro m a a' he; cases he), F.lenT, F.lenM⟩ (advOK ts.epi) noMb
